@@ -302,9 +302,9 @@ def c11(tier, seed):
            spec="Spec", label="MC_Readers/ideal"),
         MC("UcfgReaders", dict(Readers={"r1", "r2"}, Dev="<-MemoDev"), invariants=["ResultIsSequential"], spec="Spec",
            expect_violation=True, label="MC_Readers/refute-MemoOnValue"),
-        GEN("Gen_VarExp", vc, "readers", gen_family="varexp", replay_args=["--goroutines", "8" if q else "32"],
+        GEN("Gen_VarExp", vc, "readers", gen_family="varexp", replay_args=["--goroutines", "8" if q else "32", "--every", "2" if q else "1"],
             label="Gen_VarExp/pure-and-concurrent-reads", min_cases=10000),
-        GEN("Gen_VarExp", vc, "readers", gen_family="varexp", replay_args=["--goroutines", "8", "--every", "8" if q else "1"],
+        GEN("Gen_VarExp", vc, "readers", gen_family="varexp", replay_args=["--goroutines", "8", "--every", "12" if q else "1"],
             race=True, label="Gen_VarExp/race-detector", min_cases=1000, timeout=3600),
         # "using a config as a merge source does not modify the config": the store machine's merge universe (source merged
         # directly, embedded in a map / list / ordered struct with a dotted sibling, root and non-root sources, all policies)
